@@ -909,8 +909,55 @@ func flagWrite(in ssa.Instruction) (*types.Var, ssa.Value, ssa.Value) {
 				return f, x.Common().Args[0], x.Common().Args[1]
 			}
 		}
+		// a setter of the flag: a module method whose whole effect is storing its bool parameter into a bool field of
+		// its receiver (`s.setMonitorRunning(false)`)
+		if g := x.Common().StaticCallee(); g != nil && len(x.Common().Args) == 2 {
+			if f := flagSetterField(g); f != nil {
+				return f, x.Common().Args[0], x.Common().Args[1]
+			}
+		}
 	}
 	return nil, nil, nil
+}
+
+var flagSetterCache = map[*ssa.Function]*types.Var{}
+var flagSetterKnown = map[*ssa.Function]bool{}
+
+// flagSetterField: g is `func (r *T) set(b bool) { r.f = b }` (or the atomic form): the field f.
+func flagSetterField(g *ssa.Function) *types.Var {
+	if flagSetterKnown[g] {
+		return flagSetterCache[g]
+	}
+	flagSetterKnown[g] = true
+	if g.Blocks == nil || g.Signature.Recv() == nil || len(g.Params) != 2 || !isBool(g.Params[1].Type()) || len(g.Blocks) != 1 || g.Signature.Results().Len() != 0 {
+		return nil
+	}
+	var f *types.Var
+	n := 0
+	for _, in := range g.Blocks[0].Instrs {
+		switch y := in.(type) {
+		case *ssa.Store:
+			n++
+			if fa, ok := y.Addr.(*ssa.FieldAddr); ok && fa.X == ssa.Value(g.Params[0]) && y.Val == ssa.Value(g.Params[1]) && isBool(fieldOfAddr(fa).Type()) {
+				f = fieldOfAddr(fa)
+			}
+		case *ssa.Call:
+			n++
+			if k, m := atomicMethod(y.Common().StaticCallee()); k == "Bool" && m == "Store" && len(y.Common().Args) == 2 && y.Common().Args[1] == ssa.Value(g.Params[1]) {
+				if fa, ok := y.Common().Args[0].(*ssa.FieldAddr); ok && fa.X == ssa.Value(g.Params[0]) {
+					f = fieldOfAddr(fa)
+				}
+			}
+		case *ssa.FieldAddr, *ssa.Return, *ssa.DebugRef:
+		default:
+			n += 2
+		}
+	}
+	if n != 1 {
+		f = nil
+	}
+	flagSetterCache[g] = f
+	return f
 }
 
 // ---------------------------------------------------------------------------------------------
